@@ -649,7 +649,8 @@ fn coq_ops(ops: &[Wop], named_seqs: &[(String, &Vec<Wop>)], named_strs: &[(Strin
 
 // ------------------------------------------------------------------ main
 
-struct CaseOut { term: String, descr: Value, project: usize, node_file: Option<String> }
+struct CaseOut { term: String, descr: Value, project: usize, node_file: Option<String>,
+                 js_text: String, loader_req: Option<Value> }
 
 fn main() {
     silence_panics();
@@ -662,6 +663,8 @@ fn main() {
     let node: Option<String> = args.extra.iter().position(|a| a == "--node").and_then(|i| args.extra.get(i + 1)).cloned();
     let node_dir = args.out.join("node-modules-under-test");
     if node.is_some() { let _ = fs::remove_dir_all(&node_dir); fs::create_dir_all(&node_dir).unwrap(); }
+    let loader_exe: Option<String> = args.extra.iter().position(|a| a == "--loader").and_then(|i| args.extra.get(i + 1)).cloned();
+    let mut loader_budget: usize = if loader_exe.is_none() { 0 } else if thorough { 8000 } else { 2000 };
     let mut node_budget: usize = if node.is_none() { 0 } else if thorough { 3000 } else { 400 };
 
     let schema_doc = {
@@ -797,10 +800,19 @@ fn main() {
             if node_budget > 0 && (fixed_cfgs.is_some() || rng.chance(1, 3)) {
                 if js_decls.iter().all(|n| is_plain_identifier(n)) {
                     node_budget -= 1;
+                    // written after the loader batch below: node imports what the real emit_js returned when there is one
                     let f = node_dir.join(format!("m{}.mjs", cases.len()));
-                    fs::write(&f, &tjs_l).unwrap();
                     node_file = Some(f.to_str().unwrap().to_string());
                 } else { bump("node_skipped_not_plain_identifiers", &mut dist); }
+            }
+            // the loader's real ABI (load_config, initiate_task, get_required_files, load_file, emit_js) on the same
+            // sources and configuration text, for projects whose imports the loader can resolve itself
+            let mut loader_req = None;
+            if pr.via_resolver && loader_budget > 0 {
+                loader_budget -= 1;
+                let mut files = Map::new();
+                for (name, t) in &pr.sources { files.insert(format!("/p/{}", name), json!(t)); }
+                loader_req = Some(json!({"id": cases.len(), "config": text, "root": "/p/main.graphql", "files": Value::Object(files)}));
             }
             let term = format!("Case {p}_doc {p}_docL {p}_B {p}_ids {} {} {} {} {} {} {} {}",
                 coq_cfg(&cfg), coq_ops(&dts, &named_seqs, &named_strs), coq_ops(&js, &named_seqs, &named_strs),
@@ -826,11 +838,66 @@ fn main() {
                     "cli_dts_exports_from_text": te_cli.as_ref().map(|t| json!({"named": t.0, "default": t.1})),
                     "op_level": {"dts_named": dts_named, "dts_default": dts_dflt, "js_named": js_named, "js_default": js_dflt,
                                  "js_declared": js_decls, "js_duplicate_bindings": dups}}),
-                project: pid, node_file,
+                project: pid, node_file, js_text: tjs_l.clone(), loader_req,
             });
         }
         preludes.push(prelude);
     }
+
+    // ---- the real loader: one batch through harness/c14-loader's driver
+    let mut emitted: BTreeMap<usize, Result<String, String>> = BTreeMap::new();
+    if let Some(exe) = &loader_exe {
+        let reqs: Vec<Value> = cases.iter().filter_map(|c| c.loader_req.clone()).collect();
+        if !reqs.is_empty() {
+            let inp = args.out.join("loader-requests.json");
+            let outp = args.out.join("loader-answers.jsonl");
+            let _ = fs::remove_file(&outp);
+            fs::write(&inp, serde_json::to_string(&reqs).unwrap()).unwrap();
+            let st = std::process::Command::new(exe).arg(&inp).arg(&outp).env("RUST_BACKTRACE", "0")
+                .stdout(std::process::Stdio::null()).stderr(std::process::Stdio::piped()).output();
+            let stderr = st.as_ref().map(|o| String::from_utf8_lossy(&o.stderr).into_owned()).unwrap_or_default();
+            for line in fs::read_to_string(&outp).unwrap_or_default().lines() {
+                if let Ok(v) = serde_json::from_str::<Value>(line) {
+                    let id = v["id"].as_u64().unwrap_or(u64::MAX) as usize;
+                    if v["ok"] == json!(true) { emitted.insert(id, Ok(v["js"].as_str().unwrap_or("").to_string())); }
+                    else { emitted.insert(id, Err(v["error"].as_str().unwrap_or("").to_string())); }
+                }
+            }
+            // a request without an answer: the process aborted there (a panic inside an extern "C" function)
+            for r in &reqs {
+                let id = r["id"].as_u64().unwrap() as usize;
+                if !emitted.contains_key(&id) {
+                    emitted.insert(id, Err(format!("loader process ended without answering (abort?): {}", stderr.chars().take(300).collect::<String>())));
+                    break; // the driver stops at the first abort; later requests were not attempted
+                }
+            }
+            let _ = fs::remove_file(&inp); let _ = fs::remove_file(&outp);
+        }
+    }
+    for (i, c) in cases.iter_mut().enumerate() {
+        let field = match (c.loader_req.is_some(), emitted.get(&i)) {
+            (true, Some(Ok(js))) => {
+                *dist.entry("loader_emit_js_ok".into()).or_insert(0) += 1;
+                let same = *js == c.js_text;
+                if !same { *dist.entry("loader_emit_js_differs_from_print_js_on_resolved_document".into()).or_insert(0) += 1; }
+                let te = text_exports(js, " = ");
+                c.descr["loader_emit_js"] = json!({"same_text_as_in_process": same, "named": te.0, "default": te.1});
+                let f = format!("(Some ({}, {}))", coq_bool(same), coq_text_exports(&te));
+                c.js_text = js.clone();
+                f
+            }
+            (true, Some(Err(e))) => {
+                *dist.entry("loader_emit_js_failed".into()).or_insert(0) += 1;
+                direct_failures.push(json!({"what": format!("the loader fails on a project the CLI-side printers accept: {}", e), "classes": [],
+                    "config_text": c.descr["config_text"], "project": c.descr["project"]}));
+                "None".to_string()
+            }
+            _ => "None".to_string(),
+        };
+        c.term.push(' ');
+        c.term.push_str(&field);
+    }
+    for c in cases.iter() { if let Some(f) = &c.node_file { fs::write(f, &c.js_text).unwrap(); } }
 
     // ---- runtime oracle: one node process imports every module written above and reports its export names
     let mut node_results: BTreeMap<String, Value> = BTreeMap::new();
